@@ -31,5 +31,6 @@ CHECK = {'level': 'exploration',
                  'SHA-256 from the Go standard library is the reference for IDs',
                  'Lisk32: the three prefix letters are not part of the checksum claim'],
  'quick': [{'pkg': 'c08', 'checks': 60000, 'timeout': 900}],
- 'thorough': [{'pkg': 'c08', 'checks': 400000, 'shards': 16, 'timeout': 2400}],
+ 'thorough': [{'pkg': 'c08', 'checks': 400000, 'shards': 16, 'timeout': 2400},
+              {'pkg': 'c08', 'fuzz': 'FuzzTxStrict', 'fuzztime': '90s', 'timeout': 600}],
  'replay': [{'pkg': 'c08', 'checks': 1, 'timeout': 900}]}
